@@ -53,6 +53,10 @@ def gen_decl(rng, idx):
         pool = [x for x in TYPES if x[2] == (flavour == 1)]
         # in the grid, the metric kinds rotate with the label count so that every quick run has a local histogram (and a plain one)
         t = pool[(len(pool) - 1 - idx // 3) % len(pool)] if grid else rng.choice(pool); rng.random(); ty = dict(metric=t[0], vec=t[1], local=t[2], kind=t[3], af=False)
+    if ty["af"]:
+        # make_auto_flush_static_metric! builds identifiers from the value names and refuses raw identifiers at compile time
+        for l in labels:
+            l["values"] = [("rtype" if f == "r#type" else f, "rtype" if v == "r#type" else v) for f, v in l["values"]]
     backing = keys[:]; rng.shuffle(backing)
     return dict(idx=idx, labels=labels, ty=ty, backing=backing)
 
